@@ -282,7 +282,7 @@ def cli_variants(rng, base, bl, al):
 
 def gen_history(rng, faults=(1, 2, 3, 4, 5, 6, 7)):
     files, base_cli = genproj.gen_project(rng, focus=rng.choice([None, "build", "layout", "layout"]))
-    files, tasknames = mcn.with_scripted_tasks(files, rng, force=rng.random() < 0.3)
+    files, tasknames = mcn.with_scripted_tasks(files, rng, force=rng.random() < 0.6)
     base_cli = {k: v for k, v in base_cli.items() if k in ("select", "disable", "define")}
     if rng.random() < 0.6: base_cli = {}
     bl, al = names_of(files)
@@ -298,7 +298,7 @@ def gen_history(rng, faults=(1, 2, 3, 4, 5, 6, 7)):
     def scen():
         sc = {}
         if rng.random() < 0.15: sc["generate_only"] = True
-        if tasknames and rng.random() < 0.15:
+        if tasknames and rng.random() < 0.3:
             sc["task"] = rng.choice(tasknames); sc["multiple"] = rng.random() < 0.7
             sc["keep_going"] = rng.choice([0, 1, 2])
             if bl and al and rng.random() < 0.4: sc["fail"] = [(rng.choice(bl), rng.choice(al))]
